@@ -1,6 +1,7 @@
 """C13 — variant haplotypes: alternative sequence and lift-over match the edit model."""
 from harness.impl_variants import impl_var_op
 
+WARM_TWINS = {"quick": 0.02, "thorough": 0.05}      # engine: call-history twins (harness/warm.py)
 ID = "C13"
 LEAN_MODULE = "BioCantor.Props.C13"
 DESIGN_REF = "4/C13"
